@@ -73,6 +73,10 @@ CLAIMED = {
   "Bounded symbolic model checking of the real collector/aggregation path (TopNCollector.Collect/collectSingle, search.Bucket.Consume/Finish, SingleValueCalculator for count/sum/min/max, WeightedAvgCalculator, TermsCalculator.Consume/Finish/Less/Swap with sort.Sort from source, RangeCalculator): for every set of k matches with arbitrary sort keys, values, weights and keywords, every size n, offset, direction and search-after key, count = number of matches, sum/avg/weighted avg = the reference fold in hit order, min/max = reference, terms bucket = direct count with nested metric and remainder accounting for every match, numeric range buckets = direct counting.",
   "Bounds: k <= 2 matches with all paging settings, k = 3 with n = 1 (thorough 3 / 4), <= 2 values per hit. Value sources are harness types (reading real doc values is C10). Float + and * uninterpreted, comparisons exact. Outside: cardinality (hyperloglog) and quantile (t-digest) sketches' estimates and monotonicity (third-party float code; they are fed through the same Consume path), date ranges (same code shape as numeric ranges), nesting depth 2, multi-valued terms remainders (the property's statement restricts the remainder clause to single-valued fields).",
   "DESIGN.md section 5 C16"),
+ "C08": (
+  "Kernel check, decided symbolically over the real index code with model segments: (1) the sequential offline writer (WriterOffline.Batch/doMerge/Close, OpenOfflineWriter) for every number of batches incl. zero, batch size and merge fan-in leaves exactly one snapshot naming one segment with exactly the inserted documents, removes every intermediate item, closes every handle, and opens with the ordinary reader; (2) term postings through the real Snapshot.PostingsIterator / postingsIterator.Next/Advance / segmentIndexAndLocalDocNumFromGlobal are identical, mapped back to logical documents, for every layout of the same documents over 1-3 segments with pending deletions, under any Next/Advance driver; (3) the query optimisations (optimizeConjunction, optimizeConjunctionUnadorned, optimizeDisjunctionUnadorned with the real unadorned iterators) return the documents of the plain evaluation for every layout, with and without 1-hit encoding, and never modify a segment's own postings.",
+  "Bounds: <= 3 batches x <= 2 docs (5 thorough), <= 4 (5) documents over <= 3 segments, <= 3 terms. This is a kernel of the property: model segments/postings stand for ice (the OptimizablePostingsIterator contract is modelled as ice implements it), so reopen of real directories, Backup/restore, ice v1 vs v2, in-memory vs disk, MultiSearch merging, aggregations across layouts (C16 decides them per match list) and score equality (the listed known finding about merged segments lives in the bundled ice merger) are outside. Index order of documents is layout dependent (merge rounds reorder), so only multisets are compared.",
+  "DESIGN.md section 5 C08"),
 }
 
 NA = {
